@@ -617,6 +617,19 @@ TAILS = [b"", b"\n", b" keep;\n", b"\n}}}} ((( [[[ \"unterminated", b"\r\n/* ope
 COMMENTS = [b"# caf\xc3\xa9 \xe6\x97\xa5\xe6\x9c\xac\n", b"/* multi\nline \xe2\x82\xac */", b"# plain\r\n", b""]
 
 
+# the instances of the rejection theorems derived in coq/sieve/RejectExamples.v (verdict, error and byte offset come from
+# the theorems there): each is run on the real parser, so the theorem instances are confirmed on the implementation
+_PX = b'require ["fileinto"];\nif size :over 100K {\n   '
+THEOREM_CORPUS = [
+    (_PX + b'foo "x"; }', 46, 3), (_PX + b'reject "x"; }', 46, 6), (_PX + b'true; }', 46, 4), (_PX + b'"x"; }', 46, 3),
+    (b'} keep;', 0, 1), (_PX + b'if keep { stop; } }', 49, 4), (_PX + b'if "x" { stop; } }', 49, 3),
+    (_PX + b'stop "x"; }', 51, 3), (_PX + b'fileinto 3; }', 55, 1), (_PX + b'fileinto :copy "x"; }', 55, 5),
+    (_PX + b'keep { stop; } }', 51, 1), (_PX + b'keep stop; }', 51, 4), (b'stop; else { stop; } keep;', 19, 1),
+    (b'require ["fileinto" "envelope"];', 20, 10), (b'require [];', 9, 1), (b'require ["fileinto",];', 20, 1),
+    (_PX, 46, None), (_PX + b'stop', 50, None), (_PX + b'if anyof () { stop; } }', 56, 1),
+    (_PX + b'if header :bogus "a" "b" { } }', 56, 6), (_PX + b'if header :regex "a" "b" { } }', 56, 6)]
+
+
 def check_C18(report, tier, seed, replay=None):
     rng = common.rng_for(seed, "C18")
     drv = common.Driver("sieve")
@@ -668,6 +681,24 @@ def check_C18(report, tier, seed, replay=None):
             if not ok:
                 report.violation("%s: offending token %r starts at line %d column %d (length %d) but error_pos=%r, error line %d in %r"
                                  % (cat, tok, line, col, len(tok), p.error_pos, eline, text), desc)
+    # the instances of the rejection theorems (sieve/RejectExamples.v) on the real parser
+    for text, off, tlen in THEOREM_CORPUS:
+        impl, mod, p, detail = both(drv, text)
+        report.case((text, "theorem"), True)
+        report.count("category:theorem-instance")
+        desc = {"property": "C18", "script": hx(text), "text": text.decode("utf-8", "replace"), "category": "theorem-instance"}
+        if impl != mod:
+            report.broke("correspondence C18 (instances of the rejection theorems: model vs parser)",
+                         "script=%r impl=%s model=%s" % (text, impl[:160], mod[:160]), {"script": hx(text)})
+        if not impl.startswith("reject"):
+            report.violation("script rejected by theorem (sieve/RejectExamples.v) is accepted by the parser: %r" % text, desc)
+            continue
+        line, col = offset_to_linecol(text, off)
+        f = impl.split(" ")
+        gl, gc, glen = int(f[3]), int(f[4]), int(f[5])
+        if (gl, gc) != (line, col) or (tlen is not None and glen != tlen):
+            report.violation("theorem instance: the offending place is line %d column %d (length %s) but error_pos=%r in %r"
+                             % (line, col, tlen, p.error_pos, text), desc)
     # a '{' that arrives while the test still lacks arguments: the report is at the '{' or later, never earlier
     for toks, j in G.brace_after_prefix_cases():
         for sep in (" ", "\n", "\r\n"):
